@@ -139,7 +139,7 @@ func c03Programs(r *vlib.Rand, eager gopacket.Packet, n int) [][]acc {
 
 func c03Lazy(c *vlib.Ctx) {
 	cp := getCorpus()
-	perType := c.Pick(60, 1200)
+	perType := c.Pick(160, 1600)
 	idx := 0
 	for ti, t := range cp.Types {
 		if ti%c.NBatch != c.Batch {
@@ -219,6 +219,87 @@ func c03Lazy(c *vlib.Ctx) {
 			c.End()
 		}
 		c.CountIn("inputs_per_layer_type", t.String(), perType)
+		// every prefix of some seeds: truncation moves the point of failure through every layer boundary, and each
+		// "first call" accessor (which decides how far the lazy packet decodes before it answers) is asked first
+		seeds := cp.Seeds[t]
+		nSeeds := min(len(seeds), c.Pick(4, 40))
+		for si := 0; si < nSeeds; si++ {
+			idx++
+			if !c.Begin(idx) {
+				continue
+			}
+			r := c.Rand(uint64(t), 777777, uint64(si))
+			seed := seeds[r.Intn(len(seeds))]
+			if si == 0 {
+				seed = seeds[0]
+			}
+			lim := min(len(seed), c.Pick(160, 1500))
+			for n := 1; n <= lim; n++ {
+				c03Prefix(c, r, t, seed[:n])
+			}
+			c.Count("prefixes_enumerated", lim)
+			c.End()
+		}
 	}
 	_ = layers.LayerTypeEthernet
+}
+
+// c03Prefix compares, for one input, a fresh lazy packet per first-call accessor with the eager packet.
+func c03Prefix(c *vlib.Ctx, r *vlib.Rand, t gopacket.LayerType, b []byte) {
+	nocopy, dsad := r.Bool(), r.Bool()
+	eo := gopacket.DecodeOptions{NoCopy: nocopy, DecodeStreamsAsDatagrams: dsad}
+	lo := eo
+	lo.Lazy = true
+	var eager gopacket.Packet
+	if pi := vlib.Guard(func() { eager = gopacket.NewPacket(b, t, eo); eager.Layers() }); pi != nil {
+		return
+	}
+	var progs [][]acc
+	for k := 2; k <= 6; k++ {
+		progs = append(progs, []acc{{kind: k}, {kind: 6}, {kind: 7}})
+	}
+	seenT := map[gopacket.LayerType]bool{}
+	for _, l := range eager.Layers() {
+		if !seenT[l.LayerType()] {
+			seenT[l.LayerType()] = true
+			progs = append(progs, []acc{{kind: 0, t: l.LayerType()}, {kind: 6}})
+		}
+	}
+	for ci := range c01Classes {
+		progs = append(progs, []acc{{kind: 1, c: ci}, {kind: 7}})
+	}
+	names := []string{"Layer", "LayerClass", "LinkLayer", "NetworkLayer", "TransportLayer", "ApplicationLayer", "ErrorLayer", "Layers", "String", "Dump"}
+	for _, prog := range progs {
+		bad := false
+		pi := vlib.Guard(func() {
+			lazy := gopacket.NewPacket(b, t, lo)
+			for si, a := range prog {
+				want, got := a.run(eager), a.run(lazy)
+				if want != got {
+					what := "contents"
+					if (want == "nil") != (got == "nil") {
+						what = "nil-ness"
+					}
+					c.Violation(fmt.Sprintf("lazy-differs:%s:%s", names[a.kind], what),
+						fmt.Sprintf("step %d (%s) of the accessor program answers differently on the lazy packet (%s)", si, a, what),
+						map[string]any{"first_layer": t.String(), "input_hex": hx(b), "mutation": "prefix", "options": optString(eo), "program": fmt.Sprint(prog), "step": si})
+					bad = true
+					return
+				}
+			}
+		})
+		c.Evals(1)
+		if pi != nil {
+			c.Violation("lazy-accessor-panicked@"+pi.Func, fmt.Sprintf("an accessor of the lazy packet panicked (%s) where the eager packet answers", pi.Value),
+				map[string]any{"first_layer": t.String(), "input_hex": hx(b), "mutation": "prefix", "options": optString(eo), "program": fmt.Sprint(prog)})
+			bad = true
+		}
+		if bad {
+			break
+		}
+	}
+	if len(eager.Layers()) >= 3 {
+		c.NonTrivial(vlib.Mix(uint64(t), vlib.HashBytes(b), 777))
+	}
+	c.Count("accessor_programs", len(progs))
 }
